@@ -161,6 +161,9 @@ def prove(ctx, spec):
                 ctx.obligation_failures.append({"kind": "axiom", "detail": f"{t}: {sorted(bad)}"})
             else:
                 discharged += 1
+    # theorems proved against a stale generated file (the translator / extractor failed) are not discharged
+    if any(isinstance(f_, dict) and f_.get("kind") in ("translator", "skeleton-extractor") for f_ in ctx.obligation_failures):
+        discharged = 0
     if ctx.tier == "thorough" and rc == 0 and not os.environ.get("VERIF_SKIP_LEANCHECKER"):
         with LakeLock():
             rc3, out3 = sh(["lake", "env", "leanchecker"] + mods, cwd=LEAN, timeout=3600)
